@@ -102,7 +102,76 @@ OPS = _ops()
 REDUCED = [k for k in OPS if k.endswith(":shared") or k.endswith(":superset") or k.endswith(":scaling")]
 
 
+def _run_abstract_bases(case):
+    """the two documented base classes used as the docs describe (a minimal subclass): the caller's max_edge_repetition_dict must
+    stay as it was, and two models that rely on the default arguments must not share state"""
+    import networkx as nx
+    import flowpaths as fp
+    viol = []
+
+    class W(fp.AbstractWalkModelDiGraph):
+        def __init__(self, G, **kw):
+            super().__init__(G=G, k=1, **kw)
+            self.create_solver_and_walks()
+            self.solver.set_objective(self.solver.quicksum(self.edge_vars[e] for e in self.edge_indexes), sense="minimize")
+
+        def get_solution(self):
+            return {"walks": self.get_solution_walks()}
+
+        def get_lowerbound_k(self):
+            return 1
+
+        def is_valid_solution(self):
+            return True
+
+        def get_objective_value(self):
+            return self.solver.get_objective_value()
+
+    class P(fp.AbstractPathModelDAG):
+        def __init__(self, G, **kw):
+            super().__init__(G=G, k=1, **kw)
+            self.create_solver_and_paths()
+            self.solver.set_objective(self.solver.quicksum(self.edge_vars[e] for e in self.edge_indexes), sense="minimize")
+
+        def get_solution(self):
+            return {"paths": self.get_solution_paths()}
+
+        def get_lowerbound_k(self):
+            return 1
+
+        def is_valid_solution(self):
+            return True
+
+        def get_objective_value(self):
+            return self.solver.get_objective_value()
+
+    G = nx.DiGraph()
+    G.add_edges_from([("s", "a"), ("a", "b"), ("b", "a"), ("b", "t")])
+    stg = fp.stDiGraph(G)
+    caps = {e: 3 for e in stg.edges()}
+    before = dict(caps)
+    try:
+        w1 = W(stg, max_edge_repetition_dict=caps)
+        if caps != before:
+            viol.append({"kind": "caller_data_mutated", "msg": f"AbstractWalkModelDiGraph.__init__ changed the caller's max_edge_repetition_dict: {sorted((str(k), v) for k, v in caps.items() if before[k] != v)}"})
+        w1.solve()
+        w2 = W(fp.stDiGraph(G), max_edge_repetition=2)
+        if w1.solve_statistics is w2.solve_statistics:
+            viol.append({"kind": "global_state_mutated", "msg": "two AbstractWalkModelDiGraph models relying on the default solve_statistics share ONE dict (the second, unsolved model reports the first model's statistics)"})
+        D = nx.DiGraph()
+        D.add_edges_from([("s", "a"), ("a", "t"), ("s", "t")])
+        p1 = P(fp.stDAG(D), optimization_options={"optimize_with_safe_paths": False})
+        p1.solve()
+        p2 = P(fp.stDAG(D), optimization_options={"optimize_with_safe_paths": False})
+        if p1.solve_statistics is p2.solve_statistics:
+            viol.append({"kind": "global_state_mutated", "msg": "two AbstractPathModelDAG models relying on the default solve_statistics share ONE dict"})
+    except Exception as e:  # noqa
+        viol.append({"kind": "exception_on_valid_input", "msg": f"minimal subclass of the abstract base classes raised {common.exc_str(e)}"})
+    return {"v": viol, "nt": "abstract_bases" if not viol else None, "tags": {"abstract_bases": 1}, "out": "abstract:" + ("viol" if viol else "ok"), "states": 1, "transitions": 3}
+
+
 def cases(tier, seed):
+    yield {"special": "abstract_bases", "graph": "G1", "history": []}
     names = sorted(OPS)
     for gname in GRAPHS:
         nm = [n for n in names if n not in ("MinFlowDecomp:scan", "MinFlowDecomp:shared_scan")] if gname == "G1" else G2_OPS
@@ -281,6 +350,8 @@ def _obs_key(o):
 
 def run(case):
     global _PRISTINE_GLOBAL
+    if case.get("special") == "abstract_bases":
+        return _run_abstract_bases(case)
     viol = []
     tags = collections.Counter()
     hist = case["history"]
